@@ -2,6 +2,7 @@ import Driver.Util
 -- one import per component (keep sorted; one line each so that merges stay trivial)
 import Driver.Ops.Attempt
 import Driver.Ops.Data
+import Driver.Ops.Disk
 import Driver.Ops.Envelope
 import Driver.Ops.Policy
 import Driver.Ops.Proxy
@@ -15,6 +16,7 @@ def dispatch (line : String) : String :=
   -- one line per component
   | "attempt" :: rest => attemptOp rest
   | "data" :: rest => dataOp rest
+  | "disk" :: rest => diskOp rest
   | "envelope" :: rest => envelopeOp rest
   | "policy" :: rest => policyOp rest
   | "proxy" :: rest => proxyOp rest
